@@ -67,10 +67,12 @@ let parse_msg t = match String.split_on_char '/' t with
 let parse_chunk t = match String.split_on_char ':' t with
   | [a; b; c] -> { c_digits = hexs a; c_ext = hexs b; c_data = hexs c }
   | _ -> failwith "chunk"
-let parse_framing t = match String.split_on_char '.' t with
+(* clen.<pos> = the length spelled canonically (HttpSpec.dec); clen.<pos>.<hex> = spelled as given *)
+let parse_framing t body = match String.split_on_char '.' t with
   | ["none"] -> FrNone
   | ["close"] -> FrClose
-  | ["clen"; pos] -> FrClen (nat_of_int (int_of_string pos))
+  | ["clen"; pos] -> FrClen (nat_of_int (int_of_string pos), dec (n_of_int (List.length body)))
+  | ["clen"; pos; ds] -> FrClen (nat_of_int (int_of_string pos), hexs ds)
   | ["chunked"; pos; ld; le; tr; cs] ->
     FrChunked (nat_of_int (int_of_string pos), List.map parse_chunk (split ',' cs), hexs ld, hexs le, hexs tr)
   | _ -> failwith "framing"
@@ -103,16 +105,16 @@ let () = iter_lines (fun line ->
     end
   | ["render"; ishead; interims; final; framing; body] ->
     let r = { p_interim = List.map parse_msg (split '|' interims); p_final = parse_msg final;
-              p_framing = parse_framing framing; p_body = hexs body } in
+              p_framing = parse_framing framing (hexs body); p_body = hexs body } in
     let wf = wf_response (ishead = "1") r in
     print_endline (Printf.sprintf "ok %d %s%s" (if wf then 1 else 0) (hex_of_bytes (render r)) (show_cb (expect r)))
   | ["expectl"; limit; _ishead; interims; final; framing; body] ->
     let r = { p_interim = List.map parse_msg (split '|' interims); p_final = parse_msg final;
-              p_framing = parse_framing framing; p_body = hexs body } in
+              p_framing = parse_framing framing (hexs body); p_body = hexs body } in
     print_endline ("ok" ^ show_cb (expect_limited (n_of_hex limit) r))
   | ["wfnl"; ishead; interims; final; framing; body] ->
     let r = { p_interim = List.map parse_msg (split '|' interims); p_final = parse_msg final;
-              p_framing = parse_framing framing; p_body = hexs body } in
+              p_framing = parse_framing framing (hexs body); p_body = hexs body } in
     print_endline (Printf.sprintf "ok %d %d" (if wf_response_nolimits (ishead = "1") r then 1 else 0)
                      (if within_limits r then 1 else 0))
   | ["cbok"; limit; status; bnull; blen; actual] ->
